@@ -67,6 +67,7 @@ def run_C02(ctx):
         for _ in range(ctx.n(2, 12)):
             cases.append(long_block_case(ctx.rng, mode, ctx.thorough))
         cases += sweep_cases(ctx.rng, "block", mode, SWEEP_N_THOROUGH if ctx.thorough else SWEEP_N)
+        cases += [manycalls_case(ctx.rng, "block", mode, 300) for _ in range(2)]
     res = ctx.run(cases)
     ctx.check_absolute_shrunk(cases, res)
 
@@ -103,8 +104,10 @@ def run_C03(ctx):
         for _ in range(ctx.n(2, 12)):
             cases.append(long_block_case(ctx.rng, mode, ctx.thorough))
         cases += sweep_cases(ctx.rng, "block", mode, SWEEP_N_THOROUGH if ctx.thorough else SWEEP_N)
+        cases += [manycalls_case(ctx.rng, "block", mode, 300) for _ in range(2)]
     for mode in ["cfbbuf-enc", "cfbbuf-dec"]:
         cases += sweep_cases(ctx.rng, "buf", mode, SWEEP_N_THOROUGH if ctx.thorough else SWEEP_N)
+        cases += [manycalls_case(ctx.rng, "buf", mode, 300) for _ in range(2)]
         for _ in range(ctx.n(80, 1500)):
             c = buf_case(ctx.rng, mode)
             if ctx.rng.random() < 0.5:
@@ -118,6 +121,7 @@ def run_C03(ctx):
         cases.append(long_stream_case(ctx.rng, "ofb", ctx.thorough))
     cases += sweep_cases(ctx.rng, "stream", "ofb", SWEEP_N)
     cases += sweep_cases(ctx.rng, "core", "ofb", SWEEP_N)
+    cases += [manycalls_case(ctx.rng, "stream", "ofb", 300), manycalls_case(ctx.rng, "core", "ofb", 300)]
     res = ctx.run(cases)
     ctx.check_absolute_shrunk(cases, res)
 
@@ -197,6 +201,7 @@ def run_C04(ctx):
             cases.append(long_stream_case(ctx.rng, mode, ctx.thorough))
             cases.append(long_core_case(ctx.rng, mode, ctx.thorough))
         cases += sweep_cases(ctx.rng, "core", mode, SWEEP_N)
+        cases += [manycalls_case(ctx.rng, "stream", mode, 300), manycalls_case(ctx.rng, "core", mode, 300)]
         if ctx.thorough or mode in sweep_streams:
             cases += sweep_cases(ctx.rng, "stream", mode, SWEEP_N)
         # block index crossing the counter wrap deep in the stream (positioned, no data generated for the gap)
@@ -271,6 +276,7 @@ def run_C06(ctx):
         cases.append(long_core_case(ctx.rng, "belt", ctx.thorough))
     cases += sweep_cases(ctx.rng, "core", "belt", SWEEP_N // 2)
     cases += sweep_cases(ctx.rng, "stream", "belt", SWEEP_N // 2)
+    cases += [manycalls_case(ctx.rng, "stream", "belt", 300), manycalls_case(ctx.rng, "core", "belt", 300)]
     res = ctx.run(cases)
     ctx.check_absolute_shrunk(cases, res)
 
@@ -361,6 +367,18 @@ def run_C10(ctx):
         for _ in range(ctx.n(90, 1500)):
             cases.append(seek_case(ctx.rng, mode))
         cases += seek_sweep_cases(rng, mode, (SWEEP_N_THOROUGH if ctx.thorough else SWEEP_N) // 2)
+        # sweep of the seek target: every block 0..N (on the boundary or inside), from a fresh object or after a short read
+        pool = [x for x in matrix_for(mode) if x[0] <= 16]
+        cfgs = rng.sample(pool, min(3, len(pool)))
+        for t in range(0, SWEEP_N):
+            bs, w = cfgs[t % len(cfgs)]
+            key = rb(rng, 16)
+            iv, cls = stream_iv(rng, mode, bs, key)
+            c = Case("stream", mode, bs, w, key, iv, cls_iv=cls, cls_sweep=1)
+            if rng.random() < 0.4:
+                c.ops.append(f"apply {hx(rb(rng, rng.randrange(0, 2 * bs)))}")
+            c.ops += [f"seek u64 {t * bs + (rng.randrange(0, bs) if rng.random() < 0.5 else 0)}", f"apply {hx(rb(rng, bs + 1))}", "pos u128"]
+            cases.append(c)
     res = ctx.run(cases)
     # reported positions and outcome kinds: absolute (the byte position is tracked from the requested seeks);
     # bytes produced after a seek: compared with the implementation's OWN keystream at that offset, obtained
